@@ -449,7 +449,8 @@ class ExprMixin(ExecBase):
             i = coerce(idx, INT).term
             n = self.list_len(base)
             self.safety('IndexError', z3.And(-n <= i, i < n), 'list_index')
-            i2 = z3.If(i < 0, i + n, i)
+            # in a clause, indices are written non-negative: the plain select keeps quantified clauses instantiable (triggers)
+            i2 = i if self.spec_mode else z3.If(i < 0, i + n, i)
             return self.list_at(base, i2)
         if k == 'dict':
             self.safety('KeyError', self.dict_has(base, idx), 'dict_key')
